@@ -5,15 +5,15 @@
 package zkmul
 
 //@ func (*Proof).IsValid
-//@   nopanic[C05]
+//@   nopanic[C10]
 //@   inline
 //@   requires public.X != nil && public.Y != nil && public.C != nil && pkok(public.Prover)
 
 //@ func (*Proof).Verify
-//@   nopanic[C05]
+//@   nopanic[C10]
 //@   requires group != nil && hash != nil && hash.h != nil && public.X != nil && public.Y != nil && public.C != nil && pkok(public.Prover)
 
 //@ func challenge
-//@   nopanic[C05]
+//@   nopanic[C10]
 //@   inline
 //@   requires hash != nil && hash.h != nil && group != nil && public.X != nil && public.Y != nil && public.C != nil && pkok(public.Prover) && commitment != nil
